@@ -5,7 +5,12 @@
 From Coq Require Import String.
 From Coq Require Import List NArith ZArith Bool Lia.
 
-From NB Require Import Base.Res Base.Json Diff.DiffFormat Diff.Patch Diff.Codec Merge.SortKey.
+From NB Require Import Base.Res.
+From NB Require Import Base.Json.
+From NB Require Import Diff.DiffFormat.
+From NB Require Import Diff.Patch.
+From NB Require Import Diff.Codec.
+From NB Require Import Merge.SortKey.
 Import ListNotations.
 
 Inductive action :=
